@@ -1,9 +1,264 @@
 package main
 
+// Inventories and the effect summary (C12, C15, C20), from the typed AST and
+// SSA of /repo's current working tree.
+
 import (
+	"fmt"
+	"go/ast"
+	"go/token"
+	"go/types"
+	"path/filepath"
+	"sort"
+	"strings"
+
 	"golang.org/x/tools/go/packages"
+	"golang.org/x/tools/go/ssa"
+	"golang.org/x/tools/go/ssa/ssautil"
 )
 
+func leanStrings(v []string) string {
+	q := make([]string, len(v))
+	for i, s := range v {
+		q[i] = fmt.Sprintf("%q", s)
+	}
+	return "[" + strings.Join(q, ", ") + "]"
+}
+
+func isTestFile(fset *token.FileSet, pos token.Pos) bool {
+	return strings.HasSuffix(fset.Position(pos).Filename, "_test.go")
+}
+
+func funcName(fd *ast.FuncDecl) string {
+	name := fd.Name.Name
+	if fd.Recv != nil && len(fd.Recv.List) > 0 {
+		t := fd.Recv.List[0].Type
+		if s, ok := t.(*ast.StarExpr); ok {
+			t = s.X
+		}
+		if id, ok := t.(*ast.Ident); ok {
+			name = id.Name + "." + name
+		}
+	}
+	return name
+}
+
+// rootGlobal follows FieldAddr/IndexAddr/Field/Index/UnOp(load)/ChangeType chains
+// to a package-level variable, if any.
+func rootGlobal(v ssa.Value, depth int) *ssa.Global {
+	if depth > 12 {
+		return nil
+	}
+	switch x := v.(type) {
+	case *ssa.Global:
+		return x
+	case *ssa.FieldAddr:
+		return rootGlobal(x.X, depth+1)
+	case *ssa.IndexAddr:
+		return rootGlobal(x.X, depth+1)
+	case *ssa.Field:
+		return rootGlobal(x.X, depth+1)
+	case *ssa.Index:
+		return rootGlobal(x.X, depth+1)
+	case *ssa.UnOp:
+		if x.Op == token.MUL {
+			return rootGlobal(x.X, depth+1)
+		}
+	case *ssa.ChangeType:
+		return rootGlobal(x.X, depth+1)
+	case *ssa.Slice:
+		return rootGlobal(x.X, depth+1)
+	case *ssa.Phi:
+		for _, e := range x.Edges {
+			if g := rootGlobal(e, depth+1); g != nil {
+				return g
+			}
+		}
+	}
+	return nil
+}
+
+// derivesFromEncodingParam: the value is loaded (through field/index chains) from
+// a parameter or receiver of type *basex.Encoding — the shared encodings.
+func derivesFromEncodingParam(v ssa.Value, depth int) bool {
+	if depth > 12 {
+		return false
+	}
+	switch x := v.(type) {
+	case *ssa.Parameter:
+		return strings.HasSuffix(x.Type().String(), "basex.Encoding")
+	case *ssa.FieldAddr:
+		return derivesFromEncodingParam(x.X, depth+1)
+	case *ssa.IndexAddr:
+		return derivesFromEncodingParam(x.X, depth+1)
+	case *ssa.Field:
+		return derivesFromEncodingParam(x.X, depth+1)
+	case *ssa.Index:
+		return derivesFromEncodingParam(x.X, depth+1)
+	case *ssa.UnOp:
+		if x.Op == token.MUL {
+			return derivesFromEncodingParam(x.X, depth+1)
+		}
+	case *ssa.ChangeType:
+		return derivesFromEncodingParam(x.X, depth+1)
+	case *ssa.Slice:
+		return derivesFromEncodingParam(x.X, depth+1)
+	}
+	return false
+}
+
 func genInventory(pkgs []*packages.Package) {
-	_ = pkgs
+	var panicFuncs, globals, sharedWrites, randReads []string
+	keyCalls := map[string]bool{}
+	for _, p := range pkgs {
+		sp := shortPkg(p.PkgPath)
+		// package-level variables
+		scope := p.Types.Scope()
+		for _, n := range scope.Names() {
+			if v, ok := scope.Lookup(n).(*types.Var); ok && !isTestFile(p.Fset, v.Pos()) {
+				globals = append(globals, sp+"."+n)
+			}
+		}
+		for _, f := range p.Syntax {
+			if isTestFile(p.Fset, f.Pos()) {
+				continue
+			}
+			file := filepath.Base(p.Fset.Position(f.Pos()).Filename)
+			if file == "verif_export.go" {
+				continue
+			}
+			for _, d := range f.Decls {
+				fd, ok := d.(*ast.FuncDecl)
+				if !ok || fd.Body == nil {
+					continue
+				}
+				fn := sp + "." + funcName(fd)
+				hasPanic := false
+				ast.Inspect(fd.Body, func(n ast.Node) bool {
+					if sel, ok := n.(*ast.SelectorExpr); ok {
+						// reads of the process randomness source
+						if id, ok := sel.X.(*ast.Ident); ok && sel.Sel.Name == "Reader" {
+							if pn, ok := p.TypesInfo.Uses[id].(*types.PkgName); ok && pn.Imported().Path() == "crypto/rand" {
+								randReads = append(randReads, fn)
+							}
+						}
+					}
+					call, ok := n.(*ast.CallExpr)
+					if !ok {
+						return true
+					}
+					if id, ok := call.Fun.(*ast.Ident); ok && id.Name == "panic" {
+						if _, isBuiltin := p.TypesInfo.Uses[id].(*types.Builtin); isBuiltin {
+							hasPanic = true
+						}
+					}
+					if sel, ok := call.Fun.(*ast.SelectorExpr); ok {
+						// calls on key objects: .Box/.Unbox/.Precompute/.Sign on interface values of key.go
+						switch sel.Sel.Name {
+						case "Box", "Unbox", "Precompute", "Sign":
+							if tv, ok := p.TypesInfo.Types[sel.X]; ok {
+								ts := tv.Type.String()
+								if strings.Contains(ts, "saltpack.BoxSecretKey") || strings.Contains(ts, "saltpack.BoxPrecomputedSharedKey") || strings.Contains(ts, "saltpack.SigningSecretKey") {
+									if sp == "sp" {
+										keyCalls[fn+":"+sel.Sel.Name] = true
+									}
+								}
+							}
+						}
+					}
+					return true
+				})
+				if hasPanic {
+					panicFuncs = append(panicFuncs, fn)
+				}
+			}
+		}
+	}
+	// SSA effect summary: stores whose address is rooted in a package-level
+	// variable or in a *basex.Encoding parameter; pointer-receiver calls on such values.
+	prog, ssaPkgs := ssautil.AllPackages(pkgs, ssa.InstantiateGenerics)
+	prog.Build()
+	own := map[*ssa.Package]string{}
+	for i, sp := range ssaPkgs {
+		if sp != nil {
+			own[sp] = shortPkg(pkgs[i].PkgPath)
+		}
+	}
+	for fn := range ssautil.AllFunctions(prog) {
+		if fn.Pkg == nil || own[fn.Pkg] == "" || fn.Synthetic != "" && !strings.HasPrefix(fn.Synthetic, "bound") {
+			continue
+		}
+		if fn.Pos() != token.NoPos && (isTestFile(prog.Fset, fn.Pos()) || filepath.Base(prog.Fset.Position(fn.Pos()).Filename) == "verif_export.go") {
+			continue
+		}
+		name := own[fn.Pkg] + "." + fn.RelString(fn.Pkg.Pkg)
+		if fn.Name() == "init" || strings.HasSuffix(name, ".NewEncoding") || strings.HasPrefix(fn.Name(), "init#") {
+			continue // construction time
+		}
+		for _, b := range fn.Blocks {
+			for _, ins := range b.Instrs {
+				switch x := ins.(type) {
+				case *ssa.Store:
+					if g := rootGlobal(x.Addr, 0); g != nil && own[g.Pkg] != "" {
+						sharedWrites = append(sharedWrites, fmt.Sprintf("%s stores to %s", name, g.Name()))
+					} else if derivesFromEncodingParam(x.Addr, 0) {
+						sharedWrites = append(sharedWrites, fmt.Sprintf("%s stores through *Encoding", name))
+					}
+				case *ssa.MapUpdate:
+					if g := rootGlobal(x.Map, 0); g != nil && own[g.Pkg] != "" {
+						sharedWrites = append(sharedWrites, fmt.Sprintf("%s updates map %s", name, g.Name()))
+					}
+				case *ssa.Call:
+					c := x.Call
+					if c.IsInvoke() || c.StaticCallee() == nil || c.StaticCallee().Signature.Recv() == nil || len(c.Args) == 0 {
+						continue
+					}
+					recv := c.Args[0]
+					if _, isPtr := recv.Type().Underlying().(*types.Pointer); !isPtr {
+						continue
+					}
+					callee := c.StaticCallee()
+					if callee.Pkg != nil && callee.Pkg.Pkg.Path() == "math/big" {
+						if g := rootGlobal(recv, 0); g != nil && own[g.Pkg] != "" {
+							sharedWrites = append(sharedWrites, fmt.Sprintf("%s calls (*big).%s on %s", name, callee.Name(), g.Name()))
+						} else if derivesFromEncodingParam(recv, 0) {
+							sharedWrites = append(sharedWrites, fmt.Sprintf("%s calls (*big).%s on a value of *Encoding", name, callee.Name()))
+						}
+					}
+				}
+			}
+		}
+	}
+	sort.Strings(panicFuncs)
+	sort.Strings(globals)
+	sort.Strings(sharedWrites)
+	sort.Strings(randReads)
+	var kc []string
+	for k := range keyCalls {
+		kc = append(kc, k)
+	}
+	sort.Strings(kc)
+	dedup := func(s []string) []string {
+		var out []string
+		for i, x := range s {
+			if i == 0 || x != s[i-1] {
+				out = append(out, x)
+			}
+		}
+		return out
+	}
+	var sb strings.Builder
+	sb.WriteString("/- GENERATED by harness/cmd/extract (typed AST + SSA of /repo) — do not edit. -/\nnamespace Saltpack.Gen\n\n")
+	fmt.Fprintf(&sb, "/-- non-test functions that contain an explicit `panic(` -/\ndef panicFunctions : List String := %s\n\n", leanStrings(dedup(panicFuncs)))
+	fmt.Fprintf(&sb, "/-- package-level variables of saltpack, basex, basic -/\ndef globals : List String := %s\n\n", leanStrings(dedup(globals)))
+	gb := make([]string, 0)
+	for _, g := range dedup(globals) {
+		gb = append(gb, leanBytes([]byte(g)))
+	}
+	fmt.Fprintf(&sb, "/-- the same names as byte lists (kernel-reducible prefix tests) -/\ndef globalsBytes : List (List UInt8) := [%s]\n\n", strings.Join(gb, ", "))
+	fmt.Fprintf(&sb, "/-- effect summary: stores / map updates / receiver-mutating math/big calls whose target is rooted in a package-level variable or a *basex.Encoding, outside init and NewEncoding -/\ndef sharedWrites : List String := %s\n\n", leanStrings(dedup(sharedWrites)))
+	fmt.Fprintf(&sb, "/-- functions that read crypto/rand.Reader -/\ndef randReaders : List String := %s\n\n", leanStrings(dedup(randReads)))
+	fmt.Fprintf(&sb, "/-- call sites on application key objects: function:method -/\ndef keyCallSites : List String := %s\n\n", leanStrings(kc))
+	sb.WriteString("end Saltpack.Gen\n")
+	writeIfChanged("Inventory.lean", sb.String())
 }
